@@ -413,9 +413,12 @@ type BytesFrameReader struct {
 func NewBytesFrameReader(r io.Reader) (*BytesFrameReader, error) {
 	var version [2]byte
 
-	switch _, err := r.Read(version[:]); {
-	case errors.Is(err, io.EOF):
-	case err != nil:
+	// NOTE io.Reader is allowed to return less than asked; one Read() does
+	// not guarantee the 2 bytes of version.
+	switch _, err := io.ReadFull(r, version[:]); {
+	case err == nil:
+	case errors.Is(err, io.EOF), errors.Is(err, io.ErrUnexpectedEOF):
+	default:
 		return nil, errors.Wrap(err, "version")
 	}
 
